@@ -41,6 +41,23 @@ fn decimal_to_value(value: Decimal) -> Result<Value, PdfError> {
     Ok(decimal_to_f64(value)?.into_value())
 }
 
+/// Convert a monetary value for display: round to pence with the shared GBP rule
+/// (midpoints away from zero) while it is still an exact decimal. The template works in
+/// binary floating point, where a midpoint such as 0.145 is already slightly below itself
+/// and would round the wrong way.
+fn money_to_value(value: Decimal) -> Result<Value, PdfError> {
+    decimal_to_value(cgt_format::round_gbp(value))
+}
+
+/// Quotient shown as money (unit prices, average costs), zero when the divisor is zero.
+fn money_ratio_to_value(numerator: Decimal, denominator: Decimal) -> Result<Value, PdfError> {
+    if denominator == Decimal::ZERO {
+        money_to_value(Decimal::ZERO)
+    } else {
+        money_to_value(numerator / denominator)
+    }
+}
+
 fn date_dict(date: NaiveDate) -> Dict {
     let mut dict = Dict::new();
     dict.insert("year".into(), (date.year() as i64).into_value());
@@ -58,7 +75,7 @@ fn optional_date_value(date: Option<NaiveDate>) -> Value {
 
 fn currency_amount_value(amount: &CurrencyAmount) -> Result<Value, PdfError> {
     let mut dict = Dict::new();
-    dict.insert("amount".into(), decimal_to_value(amount.amount)?);
+    dict.insert("amount".into(), money_to_value(amount.amount)?);
     dict.insert(
         "currency".into(),
         amount.currency.code().to_string().into_value(),
@@ -123,12 +140,12 @@ fn build_summary_rows(report: &TaxReport) -> Result<Vec<Value>, PdfError> {
             "disposal_count".into(),
             (year.disposal_count() as i64).into_value(),
         );
-        row.insert("net_gain".into(), decimal_to_value(year.net_gain)?);
-        row.insert("total_gain".into(), decimal_to_value(year.total_gain)?);
-        row.insert("total_loss".into(), decimal_to_value(year.total_loss)?);
-        row.insert("gross_proceeds".into(), decimal_to_value(gross_proceeds)?);
-        row.insert("exemption".into(), decimal_to_value(exemption)?);
-        row.insert("taxable".into(), decimal_to_value(taxable)?);
+        row.insert("net_gain".into(), money_to_value(year.net_gain)?);
+        row.insert("total_gain".into(), money_to_value(year.total_gain)?);
+        row.insert("total_loss".into(), money_to_value(year.total_loss)?);
+        row.insert("gross_proceeds".into(), money_to_value(gross_proceeds)?);
+        row.insert("exemption".into(), money_to_value(exemption)?);
+        row.insert("taxable".into(), money_to_value(taxable)?);
         rows.push(row.into_value());
     }
     Ok(rows)
@@ -173,6 +190,10 @@ fn build_holdings_rows(report: &TaxReport) -> Result<(bool, Vec<Value>), PdfErro
             row.insert("ticker".into(), h.ticker.clone().into_value());
             row.insert("quantity".into(), decimal_to_value(h.quantity)?);
             row.insert("total_cost".into(), decimal_to_value(h.total_cost)?);
+            row.insert(
+                "average_cost".into(),
+                money_ratio_to_value(h.total_cost, h.quantity)?,
+            );
             Ok(row.into_value())
         })
         .collect::<Result<Vec<_>, PdfError>>()?;
@@ -279,11 +300,21 @@ fn build_disposal_dict(disposal: &Disposal) -> Result<Dict, PdfError> {
     dict.insert("quantity".into(), decimal_to_value(disposal.quantity)?);
     dict.insert(
         "gross_proceeds".into(),
-        decimal_to_value(disposal.gross_proceeds)?,
+        money_to_value(disposal.gross_proceeds)?,
     );
-    dict.insert("proceeds".into(), decimal_to_value(disposal.proceeds)?);
-    dict.insert("total_gain".into(), decimal_to_value(total_gain)?);
-    dict.insert("total_cost".into(), decimal_to_value(total_cost)?);
+    dict.insert("proceeds".into(), money_to_value(disposal.proceeds)?);
+    dict.insert(
+        "unit_price".into(),
+        money_ratio_to_value(disposal.gross_proceeds, disposal.quantity)?,
+    );
+    dict.insert(
+        "sell_fees".into(),
+        money_to_value(disposal.gross_proceeds - disposal.proceeds)?,
+    );
+    dict.insert("total_gain".into(), money_to_value(total_gain)?);
+    // GAIN/LOSS follows the exact result, as in the text report (a loss below half a penny is still a loss).
+    dict.insert("is_gain".into(), (total_gain >= Decimal::ZERO).into_value());
+    dict.insert("total_cost".into(), money_to_value(total_cost)?);
 
     let matches: Vec<Value> = disposal
         .matches
@@ -293,6 +324,10 @@ fn build_disposal_dict(disposal: &Disposal) -> Result<Dict, PdfError> {
             match_dict.insert("rule".into(), match_rule_label(&m.rule).into_value());
             match_dict.insert("quantity".into(), decimal_to_value(m.quantity)?);
             match_dict.insert("allowable_cost".into(), decimal_to_value(m.allowable_cost)?);
+            match_dict.insert(
+                "unit_cost".into(),
+                money_ratio_to_value(m.allowable_cost, m.quantity)?,
+            );
             match_dict.insert(
                 "acquisition_date".into(),
                 optional_date_value(m.acquisition_date),
